@@ -15,6 +15,7 @@
 #include <morfuse/Common/MEM/Memory.h>
 #include "lineio.h"
 
+#include <algorithm>
 #include <cstring>
 #include <cxxabi.h>
 #include <typeinfo>
@@ -678,6 +679,135 @@ std::vector<Bytes> registry()
     return r;
 }
 
+// ---- Listener::Archive with its own tables (con::set<const_str, ConList>) ------------------------------
+// `lis <k> <N> (n|w|e <key-hex> <target>)*`: a Listener whose notify / wait-for / end tables are filled by the
+// given insertions (key text, target listener 1..N or 0 for a null SafePtr), archived between the target
+// listeners 1..k and k+1..N.  Answer: `<bytes> | <view as written> | <view as read back in a fresh context>`;
+// view = per table `-` or `<tableLength> <threshold> <tableLengthIndex> <count> (<key-hex> <n> <targets…>)*`,
+// written view in the order of the writer's table walk, read-back view sorted by key.
+typedef con::set<const_str, ConList> ConSetT;
+
+struct EntryView { std::string key; std::vector<size_t> tg; };
+
+std::string viewOf(const ConSetT* set, const std::map<const Listener*, size_t>& lbl, bool sorted)
+{
+    if (!set) return "-";
+    StringDictionary& dict = ScriptContext::Get().GetDirector().GetDictionary();
+    std::vector<EntryView> es;
+    for (uintptr_t i = set->tableLength; i > 0; i--) {
+        for (con::Entry<const_str, ConList>* e = set->table[i - 1]; e; e = e->Next()) {
+            EntryView v;
+            const str& t = dict.Get(e->Key());
+            const unsigned char* p = reinterpret_cast<const unsigned char*>(t.c_str());
+            v.key = e->Key() == 0u ? std::string("-") : hexOf(Bytes(p, p + t.length()));
+            const ConList& cl = e->Value();
+            for (size_t j = 1; j <= cl.NumObjects(); ++j) {
+                const Listener* l = cl.ObjectAt(j).Pointer();
+                auto it = lbl.find(l);
+                v.tg.push_back(!l ? 0 : it == lbl.end() ? 999999999 : it->second);
+            }
+            es.push_back(v);
+        }
+    }
+    if (sorted) std::sort(es.begin(), es.end(), [](const EntryView& a, const EntryView& b) { return a.key < b.key; });
+    std::string s = std::to_string(set->tableLength) + " " + std::to_string(set->threshold) + " " +
+        std::to_string(set->tableLengthIndex) + " " + std::to_string(set->count);
+    for (auto& e : es) {
+        s += " " + e.key + " " + std::to_string(e.tg.size());
+        for (size_t t : e.tg) s += " " + std::to_string(t);
+    }
+    return s;
+}
+
+void dropTables(Listener* l)
+{
+    // the tables were filled by hand (no counterpart entries in the targets): take them away before ~Listener
+    delete l->m_NotifyList; l->m_NotifyList = nullptr;
+    delete l->m_WaitForList; l->m_WaitForList = nullptr;
+    delete l->m_EndList; l->m_EndList = nullptr;
+}
+
+std::string lisCase(const std::vector<std::string>& t)
+{
+    uint64_t k, n;
+    if (t.size() < 3 || (t.size() - 3) % 3 || !nat(t[1], k) || !nat(t[2], n) || k > n || n > 64) return "bad-op";
+    struct Ins { char tab; std::string key; size_t tgt; };
+    std::vector<Ins> ins;
+    for (size_t i = 3; i < t.size(); i += 3) {
+        uint64_t g; Bytes kb;
+        if (t[i].size() != 1 || !std::strchr("nwe", t[i][0]) || !unhex(t[i + 1], kb) || kb.empty() || !nat(t[i + 2], g) || g > n) return "bad-op";
+        ins.push_back({ t[i][0], std::string(kb.begin(), kb.end()), (size_t)g });
+    }
+    version_info_t info;
+    info.header = "MFUS";
+    info.archiveName = "lis";
+    info.version = 1;
+    static char wbuf[1u << 20];
+    size_t len = 0;
+    std::string written, readback;
+    {
+        std::vector<std::unique_ptr<Listener>> tg;
+        for (size_t i = 0; i < n; ++i) tg.emplace_back(new Listener);
+        std::unique_ptr<Listener> L(new Listener);
+        StringDictionary& dict = ScriptContext::Get().GetDirector().GetDictionary();
+        for (auto& in : ins) {
+            ConSetT*& set = in.tab == 'n' ? L->m_NotifyList : in.tab == 'w' ? L->m_WaitForList : L->m_EndList;
+            if (!set) set = new ConSetT;
+            ConList& cl = set->addKeyValue(dict.Add(in.key.c_str()));
+            cl.AddObject(SafePtr<Listener>(in.tgt ? tg[in.tgt - 1].get() : nullptr));
+        }
+        std::map<const Listener*, size_t> lbl;
+        for (size_t i = 0; i < n; ++i) lbl[tg[i].get()] = i + 1;
+        written = viewOf(L->m_NotifyList, lbl, false) + " ; " + viewOf(L->m_WaitForList, lbl, false) + " ; " + viewOf(L->m_EndList, lbl, false);
+        omemstream os(wbuf, sizeof(wbuf));
+        try {
+            {
+                Archiver arc = Archiver::CreateWrite(os, info);
+                for (size_t i = 0; i < k; ++i) arc.ArchiveObject(*tg[i]);
+                arc.ArchiveObject(*L);
+                for (size_t i = k; i < n; ++i) arc.ArchiveObject(*tg[i]);
+            }
+            len = (size_t)os.tellp();
+        }
+        catch (...) { dropTables(L.get()); return "write-failed"; }
+        dropTables(L.get());
+    }
+    {
+        EventContext* const writer = &EventContext::Get();
+        std::unique_ptr<ScriptContext> fresh(new ScriptContext);
+        EventContext::Set(fresh.get());
+        unsigned char* copy = static_cast<unsigned char*>(std::malloc(len ? len : 1));
+        std::memcpy(copy, wbuf, len);
+        {
+            std::vector<Class*> got;
+            Listener* L = nullptr;
+            const char* err = nullptr;
+            imemstream in(reinterpret_cast<const char*>(copy), len);
+            try {
+                Archiver arc = Archiver::CreateRead(in, info);
+                for (size_t i = 0; i < k; ++i) got.push_back(arc.ReadObject());
+                L = dynamic_cast<Listener*>(arc.ReadObject());
+                for (size_t i = k; i < n; ++i) got.push_back(arc.ReadObject<Listener>());
+            }
+            catch (const ArchiveErrors::Base&) { err = "archive-error"; }
+            catch (...) { err = "other-exception"; }
+            if (err || !L) readback = std::string("err ") + (err ? err : "no-listener");
+            else {
+                std::map<const Listener*, size_t> lbl;
+                for (size_t i = 0; i < got.size(); ++i) lbl[dynamic_cast<Listener*>(got[i])] = i + 1;
+                readback = viewOf(L->m_NotifyList, lbl, true) + " ; " + viewOf(L->m_WaitForList, lbl, true) + " ; " + viewOf(L->m_EndList, lbl, true);
+            }
+            if (L) { dropTables(L); }
+            delete L;
+            for (Class* c : got) delete c;
+        }
+        std::free(copy);
+        fresh.reset();
+        EventContext::Set(writer);
+    }
+    return hexOf(Bytes(reinterpret_cast<unsigned char*>(wbuf), reinterpret_cast<unsigned char*>(wbuf) + len)) + " | " + written + " | " + readback;
+}
+
 } // namespace
 
 MFUS_CLASS_DECLARATION(Listener, VNode, nullptr)
@@ -697,6 +827,7 @@ int main(int argc, char** argv)
     EventContext::Set(&context);
 
     static_assert(sizeof(strdata<char>) == 24, "the model's strOverhead");
+    static_assert(sizeof(SafePtr<Listener>) == 32, "the model's safePtrSize");
     if (argc > 1 && std::string(argv[1]) == "--classes") {
         std::string s;
         for (auto& b : registry()) { if (!s.empty()) s += ' '; s += hexOf(b); }
@@ -715,6 +846,7 @@ int main(int argc, char** argv)
             say(same ? "ok" : "registry-mismatch");
             continue;
         }
+        if (t[0] == "lis") { say(lisCase(t)); continue; }
         if (t[0] == "arc") {
             uint64_t v;
             Bytes h, n;
